@@ -939,6 +939,48 @@ def _probes(model, rep):
                fi.lineno)
 
 
+def _finder_dtypes(model, rep):
+    """Query points may come as integer arrays (grid points, np.arange).  A
+    finder that writes computed coordinates into a copy of the query array
+    truncates them to integers: the point is then located in another cell,
+    silently.  Every finder closure under skfem/mesh is scanned for stores
+    of foreign data into copies of its arguments (skv/dtypeflow.py); a
+    buffer created as a float array is accepted (coordinates are real)."""
+    from ..dtypeflow import lossy_store_sites
+    R1 = "C14-R1"
+    nf = 0
+    for fn in model.all_functions():
+        if fn.name != "element_finder" or not fn.path.startswith(
+                "skfem/mesh/"):
+            continue
+        for inner in ast.walk(fn.node):
+            if not isinstance(inner, ast.FunctionDef) or inner is fn.node:
+                continue
+            nf += 1
+            params = [a.arg for a in inner.args.posonlyargs
+                      + inner.args.args]
+            if inner.args.vararg:
+                params.append(inner.args.vararg.arg)
+            sites = lossy_store_sites(inner, params, accept_float=True)
+            cons = f"{fn.short()}.{inner.name}:query-dtype"
+            bad = [x for x in sites if not x[5]]
+            if bad:
+                buf, own, who, d, node, _ = bad[0]
+                rep.fail(R1, fn.path, fn.short(), cons,
+                         f"'{src(d)[:50]}' makes '{buf}' a copy of the query "
+                         f"points in *their* dtype, then "
+                         f"'{src(node)[:60]}' stores a computed coordinate "
+                         f"into it: for integer query arrays (grid points) "
+                         f"it is truncated and the point is located in "
+                         f"another cell", node.lineno)
+            else:
+                rep.ok(R1, cons, f"{len(sites)} store(s) into copies of the "
+                                 f"query points, none in the caller's "
+                                 f"dtype", sample=bool(sites))
+    if nf < 4:
+        raise AnalysisError(f"only {nf} finder closures found")
+
+
 def run(model: Model, rep, tier: str) -> None:
     rep.rule("C14-R1", "finder error discipline and complete containment "
              "test")
@@ -947,6 +989,7 @@ def run(model: Model, rep, tier: str) -> None:
     rep.rule("C14-R3", "probes: values, rows and columns in one layout; "
              "interpolator reshape")
     _finders(model, rep)
+    _finder_dtypes(model, rep)
     n = split_rules(model, rep, "C14-R2", "C14-R2")
     if n < 4:
         raise AnalysisError(f"{n} simplex splits analysed, 4 expected")
@@ -965,6 +1008,10 @@ _WE = "skfem/mesh/mesh_wedge_1.py"
 _CB = "skfem/assembly/basis/cell_basis.py"
 _LN = "skfem/mesh/mesh_line_1.py"
 MUTANTS = [
+    ("line finder writes the end-point fix into a copy in the query's dtype",
+     ("skfem/mesh/mesh_line_1.py",
+      "            xin = np.array(x, dtype=np.float64)",
+      "            xin = x.copy()"), "C14-R1"),
     ("probes indexes the DOF table of the basis with mesh cell numbers",
      ("skfem/assembly/basis/cell_basis.py",
       "        cols = self.dofs.element_dofs[:, np.tile(cells, comp)]",
@@ -1046,6 +1093,10 @@ MUTANTS = [
       "self._base_tensor_order)"), "C14-R3"),
 ]
 TWINS = [
+    ("line finder converts the query with astype(float)",
+     ("skfem/mesh/mesh_line_1.py",
+      "            xin = np.array(x, dtype=np.float64)",
+      "            xin = x.astype(np.float64)")),
     ("1-D finder compares the counts with !=",
      (_LN, "            if len(elems) < len(x):",
       "            if len(elems) != len(x):")),
